@@ -26,10 +26,10 @@ def plan(ctx):
                               encodes=["reed_solomon_simd::encode", "ReedSolomonEncoder::new/add_original_shard/encode", "DefaultRateEncoder (new, adds, encode_begin)"],
                               bounds="error inputs only (a violation-free input runs a full DefaultRate round: outside); unwind 19",
                               flags=RV, timeout=1500, mem_gb=10, stubs=RS_STUB, symbolic="shard bytes",
-                              tiers=("quick", "thorough") if n % 3 == 0 else ("thorough",)))
+                              tiers=("quick", "thorough") if n % 2 == 0 else ("thorough",)))
     return Plan(hs,
                 assumptions=["DefaultEngine under feature mask 0 with dummy lookup tables (no feasible path of these harnesses executes engine arithmetic)",
                              "documented preconditions and per-variant truthfulness predicates transcribed into the harness (c10.rs)",
                              "equality of the one-shot success results with the streaming API's bytes follows from the code being a plain add/encode/decode sequence on ReedSolomon* objects; it is NOT decided by a solver here"],
-                outside=["success paths that restore at least one shard (DefaultRate round over DefaultEngine + HashMap inserts: does not fit CBMC)", "more than 3 entries per list", "shard lengths other than 0..4"],
+                outside=["one-shot encode beyond the errors raised before the encoder runs (unsupported counts, no originals, invalid first shard size): TooFew/TooMany/DifferentShardSize and success paths reach ReedSolomonEncoder::encode, whose DefaultRate body does not fit CBMC", "success paths that restore at least one shard (DefaultRate round over DefaultEngine + HashMap inserts: does not fit CBMC)", "more than 3 entries per list", "shard lengths other than 0..4"],
                 trusted_base=COMMON_TRUSTED)
